@@ -125,3 +125,73 @@ Proof.
     + rewrite !app_length in Hf. rewrite E in Hf. cbn [length] in *. lia.
 Qed.
 End Loops.
+
+(* ------------------------------------------------------------------------- *)
+(* a whole message, a line feed, and what follows                              *)
+Section Msg.
+Variables dec2f dec2d : list Z -> Z.
+
+Theorem message_reads_tl o addr vs text w tl :
+  compress o = true -> good_addr addr -> Forall goodc vs -> Z.of_nat (length vs) < 2 ^ 31 ->
+  print_message o addr vs 0 = Some (text, w) -> tail_ok tl ->
+  exists slots,
+    count_printed_arg_vals_of_msg dec2f dec2d (text ++ 10 :: tl) = Ok (true, Z.of_nat (length slots)) /\
+    scan_message dec2f dec2d (text ++ 10 :: tl) (Z.of_nat (length slots)) = Ok (addr, slots, tl) /\
+    expand slots = Some vs.
+Proof.
+  intros Hon [[ar Ea] Hns] Hg Hlen Hp Htl. unfold print_message in Hp.
+  destruct (print_vals_loop (S (length vs)) o vs None 0 (Z.of_nat (length vs)) addr true 0
+              (0 + (len addr + 1)) (if 0 + (len addr + 1) =? 0 then 0 else 1)) as [[t w']|] eqn:El;
+    [|discriminate].
+  inversion Hp; subst text w; clear Hp.
+  assert (Hsk : forall tail f, skip_comments_ws f (addr ++ tail) = addr ++ tail)
+    by (intros; rewrite Ea; cbn [app]; apply skip_comments_ws_no; lia).
+  assert (Hhd : forall tail, hd0 (addr ++ tail) = 47) by (intros; rewrite Ea; reflexivity).
+  assert (Hnw : forall tail, skip_ws (addr ++ tail) = addr ++ tail)
+    by (intros; apply skip_ws_nonspace; rewrite Hhd; reflexivity).
+  destruct vs as [|v vs'].
+  - (* no values: "addr SP NL tail" *)
+    cbn in El. inversion El; subst t w'. cbn [length Z.of_nat Z.eqb].
+    rewrite <- app_assoc. cbn [app].
+    assert (Hd := dropwhile_nonspace addr (32 :: 10 :: tl) Hns (or_intror eq_refl)). destruct Hd as [Hd Ht].
+    exists []. unfold count_printed_arg_vals_of_msg, scan_message.
+    rewrite !Hnw, !Hsk, !Hhd. cbn [Z.eqb Pos.eqb negb]. rewrite Hd, Ht.
+    assert (Hws : skip_ws (32 :: 10 :: tl) = tl) by (destruct Htl as [->|[r ->]]; reflexivity).
+    rewrite Hws. split; [|split; [|reflexivity]].
+    + unfold count_printed_arg_vals. rewrite Hws.
+      destruct Htl as [->|[r ->]]; [reflexivity|].
+      rewrite skip_comments_ws_no by lia. reflexivity.
+    + reflexivity.
+  - apply (print_loop_iseq dec2f dec2d o Hon) in El; try assumption; try lia; try discriminate.
+    destruct El as (its & sfx & -> & -> & Hseq & Horig & _).
+    assert (Hne : its <> []) by (intros ->; cbn in Horig; discriminate).
+    destruct (iseq_from_iseq dec2f dec2d _ _ _ _ Hseq Hne) as (sepz & T & -> & HL & Hsep).
+    assert (Hz : (Z.of_nat (length (v :: vs')) =? 0) = false) by (apply Z.eqb_neq; cbn [length]; lia). rewrite !Hz.
+    destruct its as [|it its']; [congruence|].
+    destruct (iseq_first dec2f dec2d _ _ _ _ HL) as (c & r & -> & Hc).
+    cbv iota. rewrite <- !app_assoc. cbn [app].
+    assert (Hsp : sepz ++ c :: r ++ 10 :: tl = [] \/ isspace (hd0 (sepz ++ c :: r ++ 10 :: tl)) = true).
+    { right. destruct Hsep as [Hne' Hall]. destruct sepz as [|x s]; [congruence|]. now inversion Hall. }
+    destruct (dropwhile_nonspace addr (sepz ++ c :: r ++ 10 :: tl) Hns Hsp) as [Hd Ht].
+    assert (Hws : skip_ws (sepz ++ c :: r ++ 10 :: tl) = c :: r ++ 10 :: tl).
+    { apply skip_ws_sep; [apply Hsep|]. rewrite hd0_cons. apply Hc. }
+    exists (islots (it :: its')).
+    unfold count_printed_arg_vals_of_msg, scan_message.
+    rewrite !Hnw, !Hsk, !Hhd. cbn [Z.eqb Pos.eqb negb]. rewrite Hd, Ht, Hws.
+    split; [|split].
+    + unfold count_printed_arg_vals. rewrite Hws.
+      destruct Hc as (H0 & H47 & H37 & Hsp' & H46 & H40).
+      rewrite skip_comments_ws_no by assumption.
+      change (c :: r ++ 10 :: tl) with ((c :: r) ++ 10 :: tl).
+      rewrite (count_loop_iseq_tl dec2f dec2d _ _ _ tl HL ltac:(discriminate) Htl); [reflexivity|reflexivity|].
+      rewrite !app_length. cbn [length]. lia.
+    + unfold scan_arg_vals. change (c :: r ++ 10 :: tl) with ((c :: r) ++ 10 :: tl).
+      rewrite (scan_loop_iseq_tl dec2f dec2d _ _ _ tl HL ltac:(discriminate) Htl _ 0 _ []); try reflexivity; try exact I.
+      * split; [reflexivity|discriminate].
+      * assert (Hle : (length (it :: its') <= length (islots (it :: its')))%nat).
+        { clear. generalize (it :: its'). intros its. unfold islots. induction its as [|x its IH]; [cbn; lia|].
+          cbn [map concat length]. rewrite app_length. destruct x; cbn [item_slots length]; lia. }
+        rewrite Nat2Z.id. lia.
+    + rewrite <- Horig. exact (expand_items dec2f dec2d _ _ _ HL).
+Qed.
+End Msg.
